@@ -1034,6 +1034,89 @@ Proof.
   apply (apply_adjoint Rth); try assumption. apply fc_triples_bounded; assumption.
 Qed.
 
+(* ------------------------------------------------------------------ end to end: FilterConv(radius=...) *)
+Section RadiusFilter.
+  Variable g : grid.
+  Variables dlx dly dlz sx sy sz : Z.
+  Variable wtab : Z -> R.
+  Variables bx0 bx1 by0 by1 bz0 bz1 : bmode R.
+  Hypothesis Hgx : 1 <= nelx g.
+  Hypothesis Hgy : 1 <= nely g.
+  Hypothesis Hgz : 1 <= nelz g \/ (nelz g = 0 /\ dlz = 0).
+  (* delem = min(n, int(...)) : between 0 and the number of elements of the axis *)
+  Hypothesis Hdx : 0 <= dlx <= nelx g.
+  Hypothesis Hdy : 0 <= dly <= nely g.
+  Hypothesis Hdz : 0 <= dlz <= nelz g.
+  Hypothesis Hw : forall k, (0 <= wtab k)%R.
+  Hypothesis Hc : (0 < wtab 0)%R.
+
+  Let f : @fconv R := mk_fconv g (radius_kernel dlx dly dlz sx sy sz wtab) bx0 bx1 by0 by1 bz0 bz1 [].
+
+  Lemma half_odd d : 0 <= d -> (2 * d + 1) / 2 = d.
+  Proof. intros Hd. symmetry. apply Z.div_unique with (r := 1); lia. Qed.
+
+  Lemma radius_filter_cfg :
+    fc_pad f = {| pg := g; ppx := dlx; ppy := dly; ppz := dlz;
+                  mx0 := bx0; mx1 := bx1; my0 := by0; my1 := by1; mz0 := bz0; mz1 := bz1 |} /\
+    fc_w f = radius_kernel dlx dly dlz sx sy sz wtab /\ fc_uov f = [].
+  Proof.
+    unfold f, mk_fconv.
+    destruct (radius_kernel_normalised dlx dly dlz sx sy sz wtab ltac:(lia) ltac:(lia) ltac:(lia) Hw Hc) as (Hs & _ & _).
+    rewrite Hs. cbn [fc_pad fc_w fc_uov map]. rewrite !half_odd by lia. auto.
+  Qed.
+
+  (* every radius kernel: all hypotheses of the convolution / bounds theorems hold, whatever the boundary modes *)
+  Theorem radius_filter_ok : let c := fc_pad f in
+    pads_nonneg c /\ dims_ok c /\ pad_ok c /\
+    shape3 (fc_w f) = (2 * ppx c + 1, 2 * ppy c + 1, 2 * ppz c + 1) /\ fc_uov f = [] /\
+    (forall qa qb qc, 0 <= qa < 2 * ppx c + 1 -> 0 <= qb < 2 * ppy c + 1 -> 0 <= qc < 2 * ppz c + 1 ->
+       (0 <= wget (fc_w f) qa qb qc)%R) /\
+    zsum3 (2 * ppx c + 1) (2 * ppy c + 1) (2 * ppz c + 1) (wget (fc_w f)) = 1%R.
+  Proof.
+    destruct radius_filter_cfg as (Ec & Ew & Eu). cbv zeta. rewrite Ec, Ew, Eu. cbn [ppx ppy ppz].
+    destruct (radius_kernel_normalised dlx dly dlz sx sy sz wtab ltac:(lia) ltac:(lia) ltac:(lia) Hw Hc) as (Hs & Hn & H1).
+    split; [unfold pads_nonneg; cbn; lia|].
+    split; [unfold dims_ok; cbn; lia|].
+    split; [unfold pad_ok, axis_ok, sx1, sy1, sz1; cbn; repeat split; left; lia|].
+    auto.
+  Qed.
+
+  Theorem radius_filter_bounds (x : list R) lo hi a b d :
+    is_const bx0 = false -> is_const bx1 = false -> is_const by0 = false -> is_const by1 = false ->
+    is_const bz0 = false -> is_const bz1 = false ->
+    Z.of_nat (length x) = nel g ->
+    (forall e, 0 <= e < nel g -> (lo <= zget x e <= hi)%R) ->
+    0 <= a < nelx g -> 0 <= b < nely g -> 0 <= d < nz1 g ->
+    (lo <= zget (fc_response f x) (elemnumber g a b d) <= hi)%R.
+  Proof.
+    intros C1 C2 C3 C4 C5 C6 Hx Hb Ha Hb' Hd.
+    destruct radius_filter_ok as (P1 & P2 & P3 & P4 & P5 & P6 & P7).
+    assert (Eg : pg (fc_pad f) = g) by (destruct radius_filter_cfg as (Ec & _ & _); rewrite Ec; reflexivity).
+    assert (Hnc : no_const (fc_pad f)).
+    { destruct radius_filter_cfg as (Ec & _ & _). rewrite Ec. unfold no_const. cbn. auto 10. }
+    pose proof (fc_bounds f P1 P2 P3 P4 Hnc P5 P6 P7 x lo hi a b d) as B.
+    rewrite Eg in B. apply B; assumption.
+  Qed.
+End RadiusFilter.
+
+(* FilterConv(radius=...) with the default (all symmetric) boundaries preserves the volume *)
+Theorem radius_filter_volume (g : grid) (dlx dly dlz sx sy sz : Z) (wtab : Z -> R) (x : list R) :
+  1 <= nelx g -> 1 <= nely g -> (1 <= nelz g \/ (nelz g = 0 /\ dlz = 0)) ->
+  0 <= dlx <= nelx g -> 0 <= dly <= nely g -> 0 <= dlz <= nelz g ->
+  (forall k, (0 <= wtab k)%R) -> (0 < wtab 0%Z)%R ->
+  Z.of_nat (length x) = nel g ->
+  nsum (fc_response (mk_fconv g (radius_kernel dlx dly dlz sx sy sz wtab) BSym BSym BSym BSym BSym BSym []) x) = nsum x.
+Proof.
+  intros Hgx Hgy Hgz Hdx Hdy Hdz Hw Hc Hx.
+  destruct (radius_filter_ok g dlx dly dlz sx sy sz wtab BSym BSym BSym BSym BSym BSym Hgx Hgy Hgz Hdx Hdy Hdz Hw Hc)
+    as (P1 & P2 & P3 & P4 & P5 & P6 & P7).
+  destruct (radius_filter_cfg g dlx dly dlz sx sy sz wtab BSym BSym BSym BSym BSym BSym Hdx Hdy Hdz Hw Hc) as (Ec & Ew & Eu).
+  apply fc_volume_preserved; try assumption.
+  - rewrite Ec. unfold all_sym. cbn. auto 10.
+  - rewrite Ec, Ew. cbn [ppx ppy ppz]. intros qa qb qc Ha Hb Hcc.
+    apply radius_kernel_mirror; assumption.
+Qed.
+
 (* ------------------------------------------------------------------ set_filter_radius never pads beyond the domain *)
 Lemma radius_delem_le (r dx : Q) (n : Z) : radius_delem r dx n <= n.
 Proof. unfold radius_delem. apply Z.le_min_l. Qed.
